@@ -160,3 +160,45 @@ Theorem C12_config_invariant : forall l cfg,
   snd (serve_all cfg l) = map (fun i => register_bd cfg (i_req i) (i_addr i) (i_method i) (i_env i)) l.
 Proof. exact serve_all_spec. Qed.
 Print Assumptions C12_config_invariant.
+
+(* ---------------- fifth round: the configuration as the operator wrote it ----------------
+   cidr_of_text is the parsing step of Ipnet.UnmarshalText (net.ParseCIDR): written address +
+   length -> (masked base, length).  For EVERY written address (host bits set or not) the
+   subnet obtained is well-formed (so C12_override_in_configured_subnet applies to any
+   configuration decoded from text), every address getRandUint32IPv4 draws from it lies in the
+   network the text denotes, and Contains is the comparison of the first `ones` bits with the
+   written address. *)
+Theorem C12_subnet_of_text_wf : forall written ones w port,
+  ones <= 32 -> written < two32 -> port < 65536 -> wf_subnet (sub_of_text written ones w port) = true.
+Proof. exact sub_of_text_wf. Qed.
+Print Assumptions C12_subnet_of_text_wf.
+
+Theorem C12_cfg_of_text_wf : forall cfg,
+  (forall s, In s (c_min_subnets cfg ++ c_prefix_subnets cfg) ->
+     exists written ones w port, ones <= 32 /\ written < two32 /\ port < 65536 /\ s = sub_of_text written ones w port) ->
+  wf_cfg cfg = true.
+Proof. exact wf_cfg_of_text. Qed.
+Print Assumptions C12_cfg_of_text_wf.
+
+Theorem C12_substituted_in_written_network : forall written ones w port chunks ip,
+  ones <= 32 -> written < two32 -> port < 65536 ->
+  rand_host (sub_of_text written ones w port) chunks = DOk ip -> in_written_net written ones ip.
+Proof. exact rand_host_in_written_net. Qed.
+Print Assumptions C12_substituted_in_written_network.
+
+Theorem C12_contains_of_text : forall written ones w port a,
+  contains (sub_of_text written ones w port) a = (a / 2 ^ (32 - ones) =? written / 2 ^ (32 - ones)).
+Proof. exact contains_of_text. Qed.
+Print Assumptions C12_contains_of_text.
+
+(* Refuted variant: storing the address as written (host bits kept).  192.0.2.200/24 with the
+   offset 100 yields 192.0.3.44, outside the network the text denotes (and outside by the
+   code's own Contains). *)
+Theorem C12_keep_hostbits_refuted :
+  exists written ones w port chunks ip,
+    ones <= 32 /\ written < two32 /\ port < 65536 /\
+    rand_host (sub_of_cidr (cidr_keep_hostbits written ones) w port) chunks = DOk ip /\
+    ~ in_written_net written ones ip /\
+    contains (sub_of_cidr (cidr_keep_hostbits written ones) w port) ip = false.
+Proof. exact keep_hostbits_refuted. Qed.
+Print Assumptions C12_keep_hostbits_refuted.
